@@ -14,6 +14,7 @@ import (
 	"context"
 	"errors"
 	"fmt"
+	"github.com/pion/ice/v4/internal/verifhook"
 	"io"
 	"net"
 	"net/netip"
@@ -1025,6 +1026,96 @@ func vfC09ContinualClose(e *vfEnv, r *vfResult, idx int) {
 	r.distinct(fmt.Sprintf("continual-close/%s/ips%d/parked=%v", final, nIP, parked))
 }
 
+// vfC09CancelledAdd: directed schedule (hook H2) for "released immediately if gathering is cancelled".  The gatherer has
+// opened a socket and is handing its candidate to the task loop (parked at taskloop.Run.beforeSelect, only the goroutine
+// that comes from addCandidate); Restart cancels the cycle; the gatherer is released.  Whether its task is refused or
+// still runs, the candidate of the cancelled cycle must not be listed and its socket must be closed.
+func vfC09CancelledAdd(e *vfEnv, r *vfResult, idx int) {
+	rng := e.rng(idx, "c09cancelledadd")
+	sw := newVfSwitch()
+	nIP := 1 + rng.IntN(3)
+	ips := []string{}
+	for i := 0; i < nIP; i++ {
+		ips = append(ips, fmt.Sprintf("10.0.%d.1", i))
+	}
+	a, err := newAgentFromConfig(&AgentConfig{Net: vfSimpleNet(sw, "A", ips...), NetworkTypes: []NetworkType{NetworkTypeUDP4}, CandidateTypes: []CandidateType{CandidateTypeHost},
+		MulticastDNSMode: MulticastDNSModeDisabled, LoggerFactory: vfQuietLogger()})
+	if err != nil {
+		r.inconclusive(1)
+
+		return
+	}
+	defer a.Close() //nolint:errcheck
+	_ = a.OnCandidate(func(Candidate) {})
+	gate := make(chan struct{})
+	var parked atomic.Int32
+	var once sync.Once
+	verifhook.SetYield(func(site string) {
+		if site != "taskloop.Run.beforeSelect" {
+			return
+		}
+		buf := make([]byte, 4096)
+		if !strings.Contains(string(buf[:runtime.Stack(buf, false)]), "(*Agent).addCandidate(") {
+			return
+		}
+		first := false
+		once.Do(func() { first = true })
+		if !first {
+			return
+		}
+		parked.Add(1)
+		select {
+		case <-gate:
+		case <-time.After(5 * time.Second):
+		}
+	})
+	defer verifhook.SetYield(nil)
+	if err := a.GatherCandidates(); err != nil {
+		r.inconclusive(1)
+
+		return
+	}
+	var done chan struct{}
+	_ = a.loop.Run(a.loop, func(context.Context) { done = a.gatherCandidateDone })
+	for dl := time.Now().Add(3 * time.Second); parked.Load() == 0 && time.Now().Before(dl); time.Sleep(20 * time.Microsecond) {
+	}
+	if parked.Load() == 0 {
+		close(gate)
+		r.inconclusive(1)
+
+		return
+	}
+	_ = a.Restart("", "") // cancels the cycle whose first candidate is on its way to the loop
+	close(gate)
+	select {
+	case <-done:
+	case <-time.After(10 * time.Second):
+		r.inconclusive(1)
+
+		return
+	}
+	r.eval(1)
+	var open []string
+	for dl := time.Now().Add(2 * time.Second); ; time.Sleep(100 * time.Microsecond) {
+		open = open[:0]
+		for _, c := range sw.openSockets("A") {
+			open = append(open, c.local.String())
+		}
+		if len(open) == 0 || time.Now().After(dl) {
+			break
+		}
+	}
+	lc, _ := a.GetLocalCandidates()
+	wit := map[string]any{"idx": idx, "addresses": ips, "listed_candidates": len(lc), "open_sockets": open}
+	if len(lc) > 0 {
+		r.violation("cancelled-cycle-candidate-listed", fmt.Sprintf("history %d: Restart cancelled the cycle while its first candidate was being handed to the loop; %d candidate(s) of that cycle are listed in the new generation", idx, len(lc)), wit)
+	}
+	if len(open) > 0 {
+		r.violation("leak-after-restart:cancelled-add", fmt.Sprintf("history %d: Restart cancelled the cycle while its first candidate was being handed to the loop; the cycle wound down, no candidate is listed, but socket(s) %v are still open", idx, open), wit)
+	}
+	r.distinct(fmt.Sprintf("cancelledadd/ips%d", nIP))
+}
+
 func TestVerifC09(t *testing.T) {
 	vfRun(t, "C09", func(e *vfEnv, r *vfResult) {
 		n := e.n(1600, 60000)
@@ -1046,6 +1137,9 @@ func TestVerifC09(t *testing.T) {
 		}
 		for i := 0; i < e.n(60, 2400); i++ {
 			vfC09ContinualClose(e, r, i)
+		}
+		for i := 0; i < e.n(120, 4800); i++ {
+			vfC09CancelledAdd(e, r, i)
 		}
 	})
 }
